@@ -47,6 +47,8 @@ type readSite struct {
 	buf  ssa.Value
 	min  ssa.Value // nil for ReadFull
 	kind string
+	// inner: the read calls inside helpers when the site has been lifted to the helper's call site
+	inner []ssa.CallInstruction
 }
 
 func (c *Ctx) readPath() map[*ssa.Function]bool {
@@ -77,7 +79,7 @@ func (c *Ctx) c05Sites(rp map[*ssa.Function]bool) (sites []readSite) {
 				case "Read", "ReadAny", "ReadStream":
 					r.Fail("R1", key, c.pos(ci), "the message source is consumed with a bare "+com.Method.Name()+": a short read truncates the message and shifts every following boundary")
 				case "ReadAtLeast":
-					sites = append(sites, readSite{f, ci, com.Args[0], com.Args[1], "MultistreamReader.ReadAtLeast"})
+					sites = append(sites, readSite{fn: f, call: ci, buf: com.Args[0], min: com.Args[1], kind: "MultistreamReader.ReadAtLeast"})
 				default:
 					// non-consuming control methods (SetCurrentStream, ...)
 				}
@@ -99,14 +101,40 @@ func (c *Ctx) c05Sites(rp map[*ssa.Function]bool) (sites []readSite) {
 			o := flow.CalleeObj(ci)
 			switch {
 			case flow.IsFuncObj(o, "io", "", "ReadFull"):
-				sites = append(sites, readSite{f, ci, com.Args[1], nil, "io.ReadFull"})
+				sites = append(sites, readSite{fn: f, call: ci, buf: com.Args[1], min: nil, kind: "io.ReadFull"})
 			case flow.IsFuncObj(o, "io", "", "ReadAtLeast"):
-				sites = append(sites, readSite{f, ci, com.Args[1], com.Args[2], "io.ReadAtLeast"})
+				sites = append(sites, readSite{fn: f, call: ci, buf: com.Args[1], min: com.Args[2], kind: "io.ReadAtLeast"})
 			case flow.IsFuncObj(o, "io", "", "CopyN"):
-				sites = append(sites, readSite{f, ci, nil, com.Args[2], "io.CopyN"})
+				sites = append(sites, readSite{fn: f, call: ci, buf: nil, min: com.Args[2], kind: "io.CopyN"})
 			default:
 				r.Fail("R1", key, c.pos(ci), fmt.Sprintf("the message source is handed to %s, which may read fewer or more bytes than the declared length", o.FullName()))
 			}
+		}
+	}
+	// a read whose buffer is handed in by the (only) caller is a read of the caller's buffer: lift the site
+	// to that call, so that a full-read helper counts where it is used
+	for i := range sites {
+		for d := 0; d < 2; d++ {
+			s := &sites[i]
+			bp, isP := flow.Peel(s.buf).(*ssa.Parameter)
+			if s.buf == nil || !isP || bp.Parent() != s.fn {
+				break
+			}
+			cs := c.uniqueSite(s.fn)
+			if cs == nil {
+				break
+			}
+			// the minimum, if any, must be expressible at the call site
+			if s.min != nil {
+				if x, ok := builtinOf(s.min, "len"); ok && flow.Peel(x) == ssa.Value(bp) {
+					s.min = nil // min == len(buffer) inside the helper: a full read of whatever is handed in
+				} else if _, isK := flow.ConstInt(s.min); !isK {
+					break
+				}
+			}
+			s.inner = append(s.inner, s.call)
+			s.buf = cs.Common().Args[paramIndex(s.fn, bp)]
+			s.fn, s.call = cs.Parent(), cs
 		}
 	}
 	for _, s := range sites {
@@ -220,6 +248,9 @@ func runC05(c *Ctx) {
 		if l == nil {
 			r.Fail("R3", key, c.pos(s.call), why)
 			continue
+		}
+		if !isMsgLenMinusHeader(l) && isMsgLenMinusHeader(c.up(l)) {
+			l = c.up(l)
 		}
 		if !isMsgLenMinusHeader(l) {
 			r.Fail("R3", key, c.pos(s.call), fmt.Sprintf("the number of body bytes read (%s) is not MessageLength − HeaderLength of the decoded header", short(l.String(), 50)))
@@ -400,6 +431,44 @@ func (c *Ctx) bodyTotal(s readSite) (total ssa.Value, how, why string) {
 			visit(x.X, depth+1)
 		case *ssa.MakeSlice:
 			if !leq(x.Cap, bound, 0) {
+				okCap = false
+			}
+		case *ssa.Call:
+			// a grow helper: every slice it returns has a capacity ≤ the parameter that receives the bound
+			// (or derives from the slice handed in)
+			g := flow.StaticCallee(x)
+			okCall := false
+			if g != nil && g.Blocks != nil && c.P.IsLibrary(g) {
+				for j, a := range x.Call.Args {
+					if !sameVal(a, bound) || j >= len(g.Params) {
+						continue
+					}
+					pj := g.Params[j]
+					okCall = true
+					for _, rv := range flow.ReturnValues(g, 0) {
+						switch y := rv.(type) {
+						case *ssa.MakeSlice:
+							if !leq(y.Cap, pj, 0) {
+								okCall = false
+							}
+						case *ssa.Parameter:
+							// returns the slice it was given: capacity judged at the argument
+							if i := paramIndex(g, y); i < len(x.Call.Args) {
+								visit(x.Call.Args[i], depth+1)
+							}
+						default:
+							okCall = false
+						}
+					}
+				}
+				// the slice handed in keeps flowing through the loop
+				for _, a := range x.Call.Args {
+					if isByteSlice(a.Type()) {
+						visit(a, depth+1)
+					}
+				}
+			}
+			if !okCall {
 				okCap = false
 			}
 		default:
@@ -692,26 +761,49 @@ func (c *Ctx) c05Errors(headerSites, bodySites []readSite) {
 			}
 		}
 		if !found {
+			// a plain forwarder: every return hands the error on untouched
+			fwd, n := true, 0
+			flow.Instrs(f, func(in ssa.Instruction) {
+				ret, ok := in.(*ssa.Return)
+				if !ok || len(ret.Results) == 0 {
+					return
+				}
+				n++
+				for _, s := range flow.SpillSources(ret.Results[len(ret.Results)-1]) {
+					if !srcs[s] && !isWrapOf(s, srcs) {
+						fwd = false
+					}
+				}
+			})
+			if fwd && n > 0 {
+				return true, ""
+			}
 			return false, "the header read's error is never tested"
 		}
 		return true, ""
 	}
 	ok1, why1 := transparent(hf, src)
 	r.Check(ok1, "R5", key, c.fpos(hf), "the error edge of the header read returns the read combinator's own error value", why1)
-	// in ReadMessage (if different): the error of the call to hf is returned as is
-	if rm != nil && rm != hf {
+	// up the call chain to ReadMessage: every function in between returns the callee's error value as is
+	cur := hf
+	for hop := 0; rm != nil && cur != rm && hop < 4; hop++ {
+		var caller *ssa.Function
 		src2 := map[ssa.Value]bool{}
-		for _, ci := range flow.CallInstrs(rm) {
-			if flow.StaticCallee(ci) == hf {
-				if call, ok := ci.(*ssa.Call); ok {
-					if e := errorResult(call); e != nil {
-						src2[e] = true
-					}
+		for _, ci := range c.librarySites(cur) {
+			if call, ok := ci.(*ssa.Call); ok {
+				if e := errorResult(call); e != nil {
+					src2[e] = true
+					caller = call.Parent()
 				}
 			}
 		}
-		ok2, why2 := transparent(rm, src2)
-		r.Check(ok2, "R5", fname(rm)+":header-error-propagated-as-is", c.fpos(rm), "ReadMessage returns the header reader's error value unmodified", why2)
+		if caller == nil {
+			break
+		}
+		ok2, why2 := transparent(caller, src2)
+		key := fname(caller) + ":header-error-propagated-as-is"
+		r.Check(ok2, "R5", key, c.fpos(caller), fname(caller)+" returns the header reader's error value unmodified", why2)
+		cur = caller
 	}
 	// body read failure: non-nil error
 	for _, s := range bodySites {
